@@ -38,7 +38,16 @@ func init() {
 
 // anyExpr draws from every generator of the harness.
 func anyExpr(g *xgen.G, env *xgen.Env) xref.Expr {
-	switch g.Intn(11) {
+	switch g.Intn(16) {
+	case 11:
+		return g.StackedPath(env)
+	case 12:
+		// a scalar expression over a stacked-predicate operand
+		return xref.Bin{Op: g.Pick("=", "!=", "<", "+", "and"), L: g.StackedPath(env), R: []xref.Expr{xref.Str{V: g.Pick("10", "x", "")}, xref.Num{Lex: "1"}, g.RelFlat(env.Names)}[g.Intn(3)]}
+	case 13:
+		return g.FilterStartPath(env)
+	case 14, 15:
+		return g.FuncOverShapes(env)
 	case 0:
 		return g.FreePath(1+g.Intn(3), env.Names)
 	case 1, 2:
@@ -127,7 +136,7 @@ func c04History(c *Case) {
 	env := &xgen.Env{Doc: d0, Ctx: pickCtx(g, d0), Names: xgen.Names}
 	e := anyExpr(g, env)
 	src := xref.Render(e)
-	used, err := xpath.Compile(src)
+	used, err := safeCompile(src)
 	if err != nil {
 		c.Skip("rejected by Compile (the business of other properties)")
 		return
@@ -170,7 +179,7 @@ func c04History(c *Case) {
 		if g.Chance(0.3) {
 			ctx = d.Root
 		}
-		fresh, ferr := xpath.Compile(src)
+		fresh, ferr := safeCompile(src)
 		if ferr != nil {
 			panic("C04: second compilation rejected")
 		}
